@@ -50,12 +50,14 @@ def r2_table(ctx, nf) -> None:
             ctx.broken(f"anchor vanished: hugr.tys.{cname}")
         k, m = c.find_method("type_bound")
         try:
-            got, _ = nf.method_nf(c, "type_bound")
+            alts = nf.method_alts(c, "type_bound")
             want, _ = nf.expr_nf(expr, c)
         except Opaque as e:
             ctx.broken(f"hugr.tys.{cname}.type_bound not normalisable: {e}")
-        ctx.check(got == want, "C07.R2", f"hugr.tys.{cname}.type_bound", k.module.path, m.lineno,
-                  f"the bound of {cname} must be {expr}", m, expected=show(want), found=show(got), detail=show(got))
+        bad = [(gd, t) for gd, t, _ in alts if t != want]
+        ctx.check(not bad, "C07.R2", f"hugr.tys.{cname}.type_bound", k.module.path, m.lineno,
+                  f"the bound of {cname} must be {expr}" + (f"; on the path [{bad[0][0]}] it is {show(bad[0][1])}" if bad and bad[0][0] else ""), m,
+                  expected=show(want), found=show(bad[0][1]) if bad else "", detail=show(want))
     # sugar sums inherit Sum.type_bound (checked as an override rule under C05.R4 too)
     sum_cls = mod.classes["Sum"]
     for c in ctx.program.subclasses(sum_cls):
@@ -367,6 +369,12 @@ def r5_collections(ctx, nf) -> None:
 
 
 def _is_copyable_test(t, params) -> bool:
+    """the test is nothing but a comparison of the element's bound with Copyable: any extra operand (a cache lookup, a flag)
+    could short-circuit it and let a linear element through"""
+    if isinstance(t, ast.UnaryOp) and isinstance(t.op, ast.Not):
+        t = t.operand
+    if not (isinstance(t, ast.Compare) and len(t.ops) == 1):
+        return False
     s = u(t)
     return "type_bound()" in s and "Copyable" in s and any(p_ + ".type_bound()" in s for p_ in params)
 
@@ -398,6 +406,9 @@ def run(ctx) -> None:
     r3_join(ctx)
     r4_written_bound(ctx, nf)
     r5_collections(ctx, nf)
+    from .. import lints
+    lints.arm(ctx)
+
 
 
 # ---------------------------------------------------------------------------------------
